@@ -80,6 +80,12 @@ impl WsSpec {
                 let _ = std::fs::create_dir_all(d);
             }
             let parent = root.parent().map(|p| p.to_string_lossy().to_string()).unwrap_or_default();
+            if let Some(text) = content.strip_prefix("@latin1:") {
+                // a Python file stored in ISO-8859-1 (PEP 263 coding cookie): not UTF-8 on disk
+                let bytes: Vec<u8> = text.chars().map(|c| if (c as u32) < 256 { c as u32 as u8 } else { b'?' }).collect();
+                std::fs::write(&p, bytes).expect("write latin-1 file");
+                continue;
+            }
             std::fs::write(&p, content.replace("${ROOT}", &root.to_string_lossy()).replace("${PARENT}", &parent)).expect("write extra file");
         }
         root
